@@ -19,7 +19,7 @@ CHECKS = {
    text='Core claim. The processing schedule (order of module registration = System.unprocessed_modules) is owned by the simulator; for every generated world all reachable schedules (<= 720) or the shipped order, its reverse and seeded samples are run through the real builder, and a canonical dump keyed by object identity (type, kind, docstring, resolved bases, linearisation, location for objects with <= 1 re-exporter) must be equal across schedules; for cyclic worlds bases and linearisation only, as the property says. Interleavings are measured by hashing the nested processModule trace and reads of half-built modules.',
    note='Trusted: generator, dump projection, signature classifier. Real trees (the maintainers test packages, pairs of them, and in the thorough tier pure-Python distributions from /venv) run through the os.listdir + model.sorted seam. Root-cause classes still open are recorded as known findings; the others were repaired in /repo (fix: commits, see known_findings.json).', ref='DESIGN.md 3/C06'),
  'C07': dict(cat='exploration', tech='deterministic simulation: schedule exploration + reference re-export model',
-   text='Generated packages with one re-exporter per object (package or sibling module; plain, renamed, star import) and consumers inside the package or in another root importing from the defining module, the re-exporter or both; every schedule; oracle = documented re-export rule for the location (exactly once, under the exported name, nothing left at the old name) and the binding truth for every reference: import alias, base class, old/new qualified name of the object and of its members (find_object), Name.member through an alias, and - with the real linkers - docstring cross-references by local / old / new qualified name and annotations, whose href must be the url of the one documented object; the moved object must also be the re-exporting module's contents entry.',
+   text='Generated packages with one re-exporter per object (package or sibling module; plain, renamed, star import) and consumers inside the package or in another root importing from the defining module, the re-exporter or both; every schedule; oracle = documented re-export rule for the location (exactly once, under the exported name, nothing left at the old name) and the binding truth for every reference: import alias, base class, old/new qualified name of the object and of its members (find_object), Name.member through an alias, and - with the real linkers - docstring cross-references by local / old / new qualified name and annotations, whose href must be the url of the one documented object; the moved object must also be the contents entry of the re-exporting module.',
    note='Re-exports through import chains or aliases are outside the quantifier and accepted at either location. Links are checked through the real linker objects on the model, not by crawling rendered pages.', ref='DESIGN.md 3/C07'),
  'C01': dict(cat='fault_enumeration', tech='deterministic simulation with fault injection: simulated-disk damage of source files x module schedules, full CLI runs',
    text='Containment part of C01. The real CLI entry point (options, model build, HTML, search index, inventory) runs in a forked child on generated multi-module worlds and on copies of the maintainers test packages after a simulated disk damaged one or two source files (torn, zero-filled tail, bit flips, lost, duplicated block, misdirected write, garbage, NUL bytes, cut inside a UTF-8 sequence), under a seeded processing schedule so that a broken module is reached at top level or on demand from inside another analysis. Oracle: main returns 0, 2 or 3, never raises or hangs; every analysed file that no longer parses is named at the start of a message; the summary, search and inventory files exist; and, when all damage is unparsable, every definition of every undamaged module is documented exactly once and appears on its page. Thorough tier enumerates every truncation offset of small files.',
